@@ -1062,7 +1062,7 @@ def stage_name_probe(rep):
 
 
 def report_dis(rep, dis, found):
-    if dis and not found:
+    if dis and not rep.n_with_input:
         i, call, iv, mv = dis[0]
         rep.fail('W:%s - model and implementation disagree (%d cases), e.g. %r: impl %r, model %r' % (
             call[0], len(dis), call[1], iv, mv),
@@ -1079,7 +1079,7 @@ def run(rep):
     report_dis(rep, dis, 0)
     dis, found = stage_w_pathglob(rep, rng, n // 2)
     swept = False
-    if dis and not found:
+    if dis and not rep.n_with_input:
         swept = True
         found = stage_sweep(rep, 4, 4)[1]
     report_dis(rep, dis, found)
@@ -1088,7 +1088,7 @@ def run(rep):
     recorded = [c for c in load_corpus() if c.get('kind') == 'find']
     families = [gen_family_job(rng, rep) for _ in range(80 if thorough else 12)]
     dis, found = stage_walk(rep, rng, 150 if thorough else 25, 12 if thorough else 10, recorded + families)
-    if dis and not found:
+    if dis and not rep.n_with_input:
         rng2 = random.Random(rep.seed + 1)
         found = stage_walk(rep, rng2, 250, 12, [gen_family_job(rng2) for _ in range(120)])[1]
     report_dis(rep, dis, found)
